@@ -11,6 +11,7 @@ from .common import (FAIL, GOOD, MISSING, SUSPECT, cases, exception_obligations,
 
 class GrossRange(Job):
     prop = "C03"
+    offgrid = "scale"      # comparison-only oracle: exact on every float, see harness.offgrid_probe
     functions = (("ioos_qc/qartod.py", "gross_range_test"), ("ioos_qc/utils.py", "isfixedlength"))
 
     def __init__(self, n, suspect, span_kind="tuple", canary=None):
@@ -95,6 +96,7 @@ class GrossRangeBadSpan(Job):
 
 class ValidRange(Job):
     prop = "C03"
+    offgrid = "scale"      # comparison-only oracle: exact on every float, see harness.offgrid_probe
     functions = (("ioos_qc/axds.py", "valid_range_test"), ("ioos_qc/utils.py", "isnan"))
 
     def __init__(self, n, kind, start_inclusive, end_inclusive, pass_flags=True, canary=None):
